@@ -94,7 +94,7 @@ MWEIGHTS = {
     'blacklist': 2, 'group': 3, 'del_group': 1, 'clock': 6, 'cell_event': 1,
     'integrity': 2, 'restart': 0, 'noop': 1, 'blackout_server': 1, 'partition_schedule': 1, 'bucket_new': 1,
     'stale_finished': 1, 'swap_apps': 1, 'retention_update': 1, 'bucket_remove': 0, 'server_delete_event_lost': 1,
-    'servers_reload_all': 1, 'bucket_reparent': 0, 'stale_presence': 2, 'maintenance': 2,       # bucket_reparent: C11 only (its profile)
+    'servers_reload_all': 1, 'bucket_reparent': 0, 'stale_presence': 2, 'maintenance': 2, 'group_squeeze': 3,       # bucket_reparent: C11 only (its profile)
 }
 
 
@@ -434,6 +434,46 @@ class MasterDriver:
         self.Z['groups'][name] = count
         self.ops.append(('group', name, count))
 
+    def op_group_squeeze(self):
+        """The operator shrinks an identity group below an identity a placed member still holds (the holder has to
+        give it up and take a lower one); the member holding the lowest identity may be deleted in the same batch,
+        so that a lower identity is free.  Returns the group or None."""
+        cell = getattr(getattr(self, 'master', None), 'cell', None)
+        if cell is None:
+            return None
+        holders = {}
+        for name, app in cell.apps.items():
+            if app.identity_group and app.server and app.identity is not None and name in self.Z['apps'] \
+                    and app.identity_group in self.Z['groups']:
+                holders.setdefault(app.identity_group, {})[app.identity] = name
+        cands = sorted(g for g, h in holders.items() if max(h) >= 1)
+        if not cands:
+            # nothing to squeeze yet: a group of three or four identities gets three small members
+            g = self.rng.choice(['g0', 'g1', 'g2'])
+            if self.Z['groups'].get(g, 0) < 3:
+                self.op_group(g, self.rng.choice([3, 4]))
+            man, demand = self.gen_manifest()
+            man.update(memory='0M', cpu='0%', disk='0M', identity_group=g, priority=self.rng.choice([10, 50, 100]))
+            for k in ('schedule_once', 'traits', 'lease'):
+                man.pop(k, None)
+            ids = self.api.create_apps(self.admin, self.rng.choice(self.appnames), man, 3)
+            for i in ids:
+                self.Z['apps'][i] = dict(man=dict(man), demand=[0, 0, 0])
+            self.ops.append(('create_apps', ids, man))
+            return None
+        g = self.rng.choice(cands)
+        top = max(holders[g])
+        free_below = set(range(top)) - set(holders[g])
+        if not free_below or self.rng.random() < 0.3:
+            low = holders[g][min(holders[g])]
+            if low != holders[g][top]:
+                self.api.delete_apps(self.admin, [low])
+                del self.Z['apps'][low]
+                self.ops.append(('delete_apps', [low]))
+        self.op_group(g, top)
+        self.mon.count('identity_group_shrunk_below_held_identity')
+        return g
+
     def op_del_group(self, name):
         self.api.delete_identity_group(self.admin, name)
         self.Z['groups'].pop(name, None)
@@ -725,6 +765,8 @@ class MasterDriver:
             self.op_blacklist()
         elif kind == 'group':
             self.op_group(rng.choice(['g0', 'g1', 'g2']), rng.choice([0, 1, 2, 2, 3, 4, 6]))
+        elif kind == 'group_squeeze':
+            self.op_group_squeeze()
         elif kind == 'del_group' and self.Z['groups']:
             self.op_del_group(rng.choice(sorted(self.Z['groups'])))
         elif kind == 'clock':
